@@ -245,6 +245,10 @@ func genReal(g *h.G) {
 			g.Count(fmt.Sprintf("real_noncanonical:%s:%s:%x", it.Kind, it.From, hs[:6]))
 		}
 		g.Emit("go.redec", tt.Name, tbl)
+		// the cell-level canonicity check of the model on the real cell (C03.reencode_canonical_cell): a cell the model
+		// calls canonical must be reproduced by the Go code (compared); how many real cells are canonical (info)
+		g.Emit("tlb.canon", tt.Name, tt.Ty, tt.Env, tbl, class)
+		g.Emit("tlb.canoninfo", tt.Name, tt.Ty, tt.Env, tbl)
 		if v, err := unmarshalInto(it.Cell, tt.T); err == nil && tlbx.ModelSafe(tlbU, tt.D, v) {
 			g.Emit("tlb.dec", tt.Name, tt.Ty, tt.Env, tbl)
 			g.Count("real_" + it.Kind + "_compared_with_model")
